@@ -23,8 +23,10 @@ def gen_ops(rng, n=None):
             ops.append(["backward", rng.random() < 0.5, rng.random() < 0.6])
         elif r < 0.90:
             ops.append(["reverse"])
-        elif r < 0.95:
+        elif r < 0.94:
             ops.append(["reload"])     # write_simple_json + read_simple_json into the same project object
+        elif r < 0.97:
+            ops.append(["sim_keepstate"])   # simulate(initialize_state_info=False, initialize_log_info=True)
         else:
             ops.append(["init"])
     return ops
